@@ -65,6 +65,7 @@ CLASSES = {
     'KeyError': (27, None),
     'IndexError': (28, None),
     'NdefError': (29, None),
+    'StructError': (30, None),
 }
 # spellings per module (local name -> class)
 SPELL = {
@@ -77,7 +78,9 @@ SPELL = {
     'nfc.clf.TransmissionError': 'TransmissionError', 'nfc.clf.ProtocolError': 'ProtocolError',
     'ValueError': 'ValueError', 'RuntimeError': 'RuntimeError', 'NotImplementedError': 'NotImplementedError',
     'AttributeError': 'AttributeError', 'TypeError': 'TypeError', 'AssertionError': 'AssertionError',
-    'KeyError': 'KeyError', 'IndexError': 'IndexError',
+    'KeyError': 'KeyError', 'IndexError': 'IndexError', 'struct.error': 'StructError',
+    'UnicodeError': 'UnicodeError', 'UnicodeDecodeError': 'UnicodeError', 'UnicodeEncodeError': 'UnicodeError',
+    'nfc.clf.BrokenLinkError': 'BrokenLinkError',
 }
 EXCH_NAMED = ['TimeoutError', 'TransmissionError', 'ProtocolError']
 EXCH_ANY = EXCH_NAMED + ['BrokenLinkError', 'OtherCommunicationError', 'CommunicationError']
